@@ -16,9 +16,10 @@ import (
 // A history is a sequence of builds and source edits over one shared
 // GOCACHE + GARBLE_CACHE. After every build the binary must equal the isolated
 // reference of that (configuration, source) — built alone on a fresh copy of
-// the same std template — and behave like the plain build; an immediately
-// repeated identical build must start no compile or asm step (the simulator
-// sees every toolexec child, so this is observed, not inferred).
+// the same std template (a configuration that fails from cold caches must fail
+// warm too); an immediately repeated identical build must start no compile or
+// asm step (the simulator sees every toolexec child, so this is observed, not
+// inferred).
 
 func init() { Registry["C06"] = func() Check { return &c06{} } }
 
@@ -166,7 +167,7 @@ func (c c06) Generate(e *Env) ([]*Case, error) {
 	// Seeded histories.
 	n := 10
 	if thorough {
-		n = 260
+		n = 130
 	}
 	mods := []string{"", "", "", "+X1", "+X2", "+tags"}
 	for i := 0; i < n; i++ {
